@@ -29,6 +29,8 @@ def gen_case(rng):
         h = [rng.randint(-span, span) * unit + rng.choice([0, 0, 1, -1]) * (unit // 2) for _ in range(n)]
     else:
         h = [rng.choice([-1, 0, 1, 2]) * unit for _ in range(n)]
+    if 1 <= s <= 3 and rng.random() < 0.3:
+        h = [v - v % unit for v in h]          # integer-valued history, levels may still be fractional
     if rng.random() < 0.3:
         out = []
         for a in h:
@@ -63,12 +65,17 @@ def gen_case(rng):
 def run_level(h, s, ref, levels):
     core.import_impl()
     from ffpack import lcc
+    import cyc
     data = [k * 2.0 ** -s for k in h]
     kw = dict(refLevel=ref * 2.0 ** -s)
     if levels is not None:
         kw['levels'] = [k * 2.0 ** -s for k in levels]
+    if s >= 1 and levels is not None and (sum(h) + len(levels)) % 3 == 0 and all(v % (1 << s) == 0 for v in h):
+        # an integer-valued history handed over as Python ints / an int64 array together with fractional levels
+        import numpy as np
+        data = [v >> s for v in h] if sum(h) % 2 else np.array([v >> s for v in h], dtype=np.int64)
     try:
-        seq = lcc.astmLevelCrossingCounting(list(data), aggregate=False, **kw)
+        seq = lcc.astmLevelCrossingCounting(cyc.as_container(data, h, s) if isinstance(data, list) and isinstance(data[0], float) else data, aggregate=False, **kw)
         agg = lcc.astmLevelCrossingCounting(list(data), aggregate=True, **kw)
     except ValueError:
         return {'error': 'ValueError'}
@@ -85,9 +92,10 @@ def run_level(h, s, ref, levels):
 def run_peak(h, s, ref):
     core.import_impl()
     from ffpack import lcc
+    import cyc
     data = [k * 2.0 ** -s for k in h]
     try:
-        seq = lcc.astmPeakCounting(list(data), refLevel=ref * 2.0 ** -s, aggregate=False)
+        seq = lcc.astmPeakCounting(cyc.as_container(data, h, s), refLevel=ref * 2.0 ** -s, aggregate=False)
         agg = lcc.astmPeakCounting(list(data), refLevel=ref * 2.0 ** -s, aggregate=True)
     except ValueError:
         return {'error': 'ValueError'}
